@@ -197,6 +197,8 @@ spec fn wview(w: &World, f: u64, i: int) -> World {
         data: Map::new(w.data.dom().filter(|g: u64| g <= f), |g: u64| if g == f { norm_file(w.data[g], i) } else { norm_file(w.data[g], w.data[g].recs.len() as int) }),
         hint: Map::empty(),
         ever: w.ever,
+        pool_free: w.pool_free,
+        pool_cap: w.pool_cap,
     }
 }
 proof fn lemma_recs_wf_take(recs: Seq<Rec>, size: int, i: int)
